@@ -1,5 +1,5 @@
 /-
-  DriverExtra.lean — further line-protocol operations (evaluation, book, time, bitbase, tables) and
+  DriverExtra.lean — further line-protocol operations (tables, evaluation, book, time, bitbase) and
   scenario generators; kept apart from Driver.lean so the core protocol stays small.
 -/
 import ChessVerif.Model.Text
@@ -7,12 +7,155 @@ import ChessVerif.Model.Polyglot
 import ChessVerif.Spec.Rules
 import ChessVerif.Spec.Keys
 import ChessVerif.Spec.Fen
+import ChessVerif.Spec.Attacks
+import ChessVerif.Model.Time
+import ChessVerif.Gen.Importance
 open Chess
+
+-- floating point instance of the time manager ---------------------------------------------------------
+def impF (x : Nat) : Float := Float.ofBits (UInt64.ofNat (Gen.importanceBits.getD x 0))
+
+def ratioF (m ply : Nat) : Float :=
+  let mi := impF ply
+  let rest := (List.range' 1 (m - 1)).foldl (fun acc i => acc + impF (ply + 2 * i)) (0.0 : Float)
+  mi / (mi + rest)
+
+def truncF (x : Float) : Int := x.toInt64.toInt
+
+/-- IEEE-754 doubles, the same operations in the same order as time_manager.cpp -/
+def floatOps : FloatOps :=
+  { scale := fun m ply total => truncF (Float.ofInt total * ratioF m ply),
+    cap := fun a => truncF (0.7 * Float.ofInt a) }
+
+-- book helpers ------------------------------------------------------------------------------------------
+def hexBytes (s : String) : List Nat :=
+  let rec go : List Char → List Nat
+    | a :: b :: rest => (parseHexC a * 16 + parseHexC b) :: go rest
+    | _ => []
+  if s = "-" then [] else go s.toList
+where parseHexC (c : Char) : Nat :=
+  if c.isDigit then c.toNat - 48 else if 'a' ≤ c ∧ c ≤ 'f' then c.toNat - 87 else if 'A' ≤ c ∧ c ≤ 'F' then c.toNat - 55 else 0
+
+def insertNat (x : Nat) : List Nat → List Nat
+  | [] => [x]
+  | y :: ys => if x < y then x :: y :: ys else if x = y then y :: ys else y :: insertNat x ys
+
+def showBook (es : List BookEntry) : String :=
+  let keys := es.foldl (fun acc e => insertNat e.key acc) []
+  let body := keys.foldl (fun acc k =>
+    (es.filter (·.key = k)).foldl (fun acc e =>
+      acc ++ " " ++ (let ds := Nat.toDigits 16 e.key; String.ofList (List.replicate (16 - ds.length) '0' ++ ds)) ++ ":" ++ toString e.move ++ ":" ++ toString e.weight) acc) ""
+  "book n=" ++ toString es.length ++ body
+
+/-- specification-side reading of a Polyglot file: complete 16-byte records; key = 8 bytes big-endian; move word:
+    bits 0-5 to-square, 6-11 from-square, 12-14 promotion (1..4 = N B R Q); weight = 2 bytes big-endian at offset 10 -/
+def specBook (bs : List Nat) : List BookEntry :=
+  let n := bs.length / 16
+  (List.range n).map (fun i =>
+    let rec_ := (bs.drop (16 * i)).take 16
+    let key := (rec_.take 8).foldl (fun acc b => acc * 256 + b) 0
+    let code := rec_.getD 8 0 * 256 + rec_.getD 9 0
+    let promo := (code / 4096) % 8
+    let mv := (code / 64) % 64 + 64 * (code % 64) + 4096 * (if promo = 0 then 0 else promo + 1)
+    { key := key, move := mv, weight := rec_.getD 10 0 * 256 + rec_.getD 11 0 })
+
+def specPick (es : List BookEntry) (r : Nat) : Nat :=
+  -- the index whose weight interval [cum i, cum (i+1)) contains r
+  ((List.range es.length).find? (fun i =>
+    let lo := ((es.take i).map (·.weight)).foldl (· + ·) 0
+    lo ≤ r ∧ r < lo + (es.getD i default).weight)).getD es.length
+
+def specBest (es : List BookEntry) : Option BookEntry :=
+  let mx := es.foldl (fun acc e => max acc e.weight) 0
+  es.find? (fun e => e.weight = mx)
 
 structure ExtraState where
   dummy : Nat := 0
 
-def extraOp (x : ExtraState) (_mp : Position) (_sp : Spec.SPos) (_op : String) (_args : List String) :
-    Option (ExtraState × String × String) := none
+def hexs (n : Nat) : String := String.ofList (Nat.toDigits 16 n)
+def hex16' (n : Nat) : String :=
+  let ds := Nat.toDigits 16 n
+  String.ofList (List.replicate (16 - ds.length) '0' ++ ds)
+
+def parseHex (s : String) : Nat :=
+  s.toList.foldl (fun acc c =>
+    acc * 16 + (if c.isDigit then c.toNat - 48 else if 'a' ≤ c ∧ c ≤ 'f' then c.toNat - 87 else if 'A' ≤ c ∧ c ≤ 'F' then c.toNat - 55 else 0)) 0
+
+def argN (args : List String) (i : Nat) : Nat := (args.getD i "0").toNat?.getD 0
+
+def extraOp (x : ExtraState) (mp : Position) (_sp : Spec.SPos) (op : String) (args : List String) :
+    Option (ExtraState × String × String) :=
+  if op = "book" then
+    let bs := hexBytes (args.getD 0 "-")
+    some (x, showBook (loadBook bs), showBook (specBook bs))
+  else if op = "bookbest" then
+    let bs := hexBytes (args.getD 0 "-"); let key := parseHex (args.getD 1 "0")
+    let em := entriesFor (loadBook bs) key
+    let es := (specBook bs).filter (·.key = key)
+    let m := match best em with | none => "bookbest absent" | some b => "bookbest move=" ++ toString (decodeBookMove mp b.move)
+    let s := match specBest es with | none => "bookbest absent" | some b => "bookbest move=" ++ toString (decodeBookMove mp b.move)
+    some (x, m, s)
+  else if op = "bookpick" then
+    let bs := hexBytes (args.getD 0 "-"); let key := parseHex (args.getD 1 "0"); let r := argN args 3
+    let em := entriesFor (loadBook bs) key
+    let es := (specBook bs).filter (·.key = key)
+    let tot (l : List BookEntry) : Nat := (l.map (·.weight)).foldl (· + ·) 0
+    let line (l : List BookEntry) (i : Nat) :=
+      if l.isEmpty then "bookpick absent" else if tot l = 0 then "bookpick total=0"
+      else "bookpick r=" ++ toString r ++ " total=" ++ toString (tot l) ++ " move=" ++ toString (decodeBookMove mp (l.getD i default).move)
+    some (x, line em (pick em r), line es (specPick es r))
+  else if op = "time" then
+    let left := argN args 0; let inc := argN args 1; let mtg := argN args 2; let ply := argN args 3
+    let pre := "time left=" ++ toString left ++ " inc=" ++ toString inc ++ " mtg=" ++ toString mtg ++ " ply=" ++ toString ply ++ " t="
+    let t := calcTime floatOps left inc mtg ply
+    some (x, pre ++ toString t, pre ++ toString t)
+  else if op = "slidertab" then
+    let kind := argN args 0; let sq := argN args 1
+    let mask := if kind = BISHOP then bishopMask sq else rookMask sq
+    let bits := bitsOf mask
+    let n := 2 ^ bits.length
+    let hdr := "slidertab " ++ toString kind ++ " " ++ toString sq ++ " n=" ++ toString n
+    let m := (List.range n).foldl (fun acc i => acc ++ " " ++ hexs (sliderAttack kind sq (blockersFromIndex i bits))) hdr
+    let s := (List.range n).foldl (fun acc i => acc ++ " " ++ hexs (Spec.rayWalk kind sq (blockersFromIndex i bits))) hdr
+    some (x, m, s)
+  else if op = "att" then
+    let kind := argN args 0; let sq := argN args 1; let occ := parseHex (args.getD 2 "0")
+    let pre := "att " ++ toString kind ++ " " ++ toString sq ++ " "
+    some (x, pre ++ hex16' (sliderAttack kind sq occ), pre ++ hex16' (Spec.rayWalk kind sq occ))
+  else if op = "leapers" then
+    let sq := argN args 0
+    let rs (f : Nat → Nat) := String.intercalate "," ((List.range 8).map (fun r => hex16' (f r)))
+    let m := "leapers " ++ toString sq ++ " n=" ++ hex16' (knightMask sq) ++ " k=" ++ hex16' (kingMask sq) ++
+      " pw=" ++ hex16' (pawnAttacks 0 (sqBB sq)) ++ " pb=" ++ hex16' (pawnAttacks 1 (sqBB sq)) ++
+      " bm=" ++ hex16' (bishopMask sq) ++ " rm=" ++ hex16' (rookMask sq) ++ " rays=" ++ rs (fun r => rays r sq)
+    -- spec: coordinate definitions; ray order NW N NE E SE S SW W; masks = rays minus their last square (edge squares)
+    let dirs : List (Int × Int) := [(-1, 1), (0, 1), (1, 1), (1, 0), (1, -1), (0, -1), (-1, -1), (-1, 0)]
+    let rayS (r : Nat) : Nat := bbOfList (Spec.raySquares sq (dirs.getD r (0, 0)).1 (dirs.getD r (0, 0)).2)
+    let inner (r : Nat) : Nat := bbOfList (Spec.raySquares sq (dirs.getD r (0, 0)).1 (dirs.getD r (0, 0)).2).dropLast
+    let s := "leapers " ++ toString sq ++ " n=" ++ hex16' (Spec.knightSet sq) ++ " k=" ++ hex16' (Spec.kingSet sq) ++
+      " pw=" ++ hex16' (Spec.pawnAttackSet 0 (sqBB sq)) ++ " pb=" ++ hex16' (Spec.pawnAttackSet 1 (sqBB sq)) ++
+      " bm=" ++ hex16' (inner 0 ||| inner 2 ||| inner 4 ||| inner 6) ++ " rm=" ++ hex16' (inner 1 ||| inner 3 ||| inner 5 ||| inner 7) ++
+      " rays=" ++ rs rayS
+    some (x, m, s)
+  else if op = "lines" then
+    let a := argN args 0
+    let m := (List.range 64).foldl (fun acc b => acc ++ " " ++ hexs (lines a b) ++ ":" ++ hexs (fullLines a b)) ("lines " ++ toString a)
+    let s := (List.range 64).foldl (fun acc b => acc ++ " " ++ hexs (Spec.betweenIncl a b) ++ ":" ++ hexs (Spec.fullLine a b)) ("lines " ++ toString a)
+    some (x, m, s)
+  else if op = "pawnatt" then
+    let side := argN args 0; let bb := parseHex (args.getD 1 "0")
+    let pre := "pawnatt " ++ toString side ++ " "
+    some (x, pre ++ hex16' (pawnAttacks side bb), pre ++ hex16' (Spec.pawnAttackSet side bb))
+  else if op = "bits" then
+    let bb := parseHex (args.getD 0 "0")
+    let specLsb := ((List.range 64).find? (fun i => bb.testBit i)).getD 64
+    let specMsb := ((List.range 64).reverse.find? (fun i => bb.testBit i)).getD 64
+    let specPop := ((List.range 64).filter (fun i => bb.testBit i)).length
+    let m := "bits lsb=" ++ toString (if bb = 0 then 64 else lsb bb) ++ " msb=" ++ toString (if bb = 0 then 64 else msb bb) ++
+      " pop=" ++ toString (popcount bb) ++ " more=" ++ (if moreThanOne bb then "1" else "0")
+    let s := "bits lsb=" ++ toString specLsb ++ " msb=" ++ toString specMsb ++ " pop=" ++ toString specPop ++
+      " more=" ++ (if specPop > 1 then "1" else "0")
+    some (x, m, s)
+  else none
 
 def genExtra (_args : List String) : IO Unit := IO.eprintln "unknown generator"
